@@ -26,6 +26,10 @@ pub struct ACfg {
     pub scripts: Vec<Script>,
     pub stop_how: u32,
     pub sampler: bool,
+    /// 1: reducer 0 parks inside the first action's chain while another thread registers a reducer, a
+    /// middleware and a subscriber; 2: the first subscriber parks inside its first notification while
+    /// another thread unsubscribes it and registers a new one
+    pub mid_phase: u8,
 }
 
 pub fn gen(rng: &mut Rng, tiny: bool, focus: &str) -> ACfg {
@@ -116,6 +120,22 @@ pub fn gen(rng: &mut Rng, tiny: bool, focus: &str) -> ACfg {
             runtime_reg.push((p, k, rng.below(3) as u8));
         }
     }
+    let mid_phase = if policy != POL_BLOCK || std::env::var("RSV_NOMID").is_ok() { 0 } else if n_red >= 2 && rng.chance(1, if tiny { 3 } else { 6 }) { 1 } else if n_sub >= 2 && n_red >= 1 && rng.chance(1, if tiny { 2 } else { 5 }) { 2 } else { 0 };
+    if mid_phase == 1 {
+        // script: plain but parks reducer 0 at gate 0; used by the very first action of producer 1
+        let mut sc = Script::plain();
+        sc.rgate = 0;
+        scripts.push(sc);
+        let idx = scripts.len() as u32 - 1;
+        producers[0][0].0.script = idx;
+    }
+    if mid_phase == 2 {
+        let mut sc = Script::plain();
+        sc.sgate = true;
+        scripts.push(sc);
+        let idx = scripts.len() as u32 - 1;
+        producers[0][0].0.script = idx;
+    }
     ACfg {
         policy,
         cap,
@@ -131,6 +151,7 @@ pub fn gen(rng: &mut Rng, tiny: bool, focus: &str) -> ACfg {
         scripts,
         stop_how: if rng.chance(1, 4) { STOP_TRAIT } else { STOP_STOP },
         sampler: focus == "C18" || rng.chance(1, 4),
+        mid_phase,
     }
 }
 
@@ -148,6 +169,7 @@ pub fn describe(c: &ACfg) -> J {
         ("runtime_registrations", J::A(c.runtime_reg.iter().map(|(p, k, kind)| J::s(format!("producer {} before action {}: {}", p + 1, k + 1, ["add_reducer", "add_middleware", "add_subscriber"][*kind as usize]))).collect())),
         ("perturb", J::U(c.perturb as u64)),
         ("read_in_callbacks", J::B(c.read_in_cb)),
+        ("mid_phase_variant", J::s(["none", "registrations while reducer 0 is parked inside a chain", "unsubscribe + subscribe while the first subscriber is parked inside a notification"][c.mid_phase as usize])),
     ])
 }
 
@@ -157,8 +179,10 @@ pub fn execute(c: &ACfg, seed: u64) -> (W, bool) {
     let w = W::new(ctx, vec![StoreCfg { policy: c.policy, cap: c.cap, n_red: c.n_red, n_mw: c.n_mw, name: "rsva".into() }]);
     let mut subs = Vec::new();
     for i in 0..c.n_sub {
-        subs.push(w.add_direct(0, NOGATE, false, true, i % 2 == 1));
+        let gate = if c.mid_phase == 2 && i == 0 { 0 } else { NOGATE };
+        subs.push(w.add_direct(0, gate, false, true, i % 2 == 1));
     }
+    let first_sub = if c.mid_phase == 2 { Some(subs.remove(0)) } else { None };
     let stop_readers = AtomicBool::new(false);
     let turn = AtomicU32::new(0);
     let n_prod = c.producers.len() as u32;
@@ -231,6 +255,43 @@ pub fn execute(c: &ACfg, seed: u64) -> (W, bool) {
             }).unwrap());
         }
         let mut keep = Vec::new();
+        if c.mid_phase != 0 {
+            // wait for the pipeline to park, act, release (the gate stays open afterwards)
+            let w = &w;
+            let first_sub = first_sub;
+            rh.push(std::thread::Builder::new().name("midphase".into()).spawn_scoped(sc, move || {
+                if !w.ctx.gates[0].wait_parked(1) {
+                    w.ctx.gates[0].open();
+                    return;
+                }
+                if c.mid_phase == 1 {
+                    // in the unmodified code these calls wait for the chain to finish (the lists are
+                    // locked while they are walked); open the gate from another thread shortly after
+                    std::thread::scope(|s2| {
+                        s2.spawn(|| {
+                            for _ in 0..50 {
+                                std::thread::yield_now();
+                            }
+                            w.ctx.gates[0].open();
+                        });
+                        // enough pushes to outgrow the list's capacity (reallocation)
+                        for _ in 0..4 {
+                            w.add_reducer(0);
+                        }
+                        w.add_middleware(0);
+                        let _k = w.add_direct(0, NOGATE, false, false, false);
+                        std::mem::forget(_k);
+                    });
+                } else {
+                    if let Some((id, sn)) = &first_sub {
+                        w.unsubscribe(0, *id, sn.as_ref());
+                    }
+                    let _k = w.add_direct(0, NOGATE, false, false, false);
+                    std::mem::forget(_k);
+                    w.ctx.gates[0].open();
+                }
+            }).unwrap());
+        }
         for h in hs {
             keep.push(h.join().unwrap());
         }
